@@ -28,7 +28,8 @@ import vlib
 TARGETS = ["Base/Corr.vo", "C17/Model.vo", "C17/Spec.vo", "C17/Sites.vo", "C17/Carriers.vo", "C17/ProofsMerge.vo",
            "C17/ProofsChunks.vo", "C17/ProofsErr.vo", "C17/ProofsSites.vo", "C17/Corr.vo", "C17/ModelCfg.vo", "C17/ProofsCfg.vo",
            "C17/CorrCfg.vo", "C17/SitesGenDefs.vo", "C17/Sites_gen.vo", "C17/ProofsSitesGen.vo",
-           "C17/ModelScratch.vo", "C17/ScratchGenDefs.vo", "C17/Scratch_gen.vo", "C17/ProofsScratch.vo", "C17/Props.vo"]
+           "C17/ModelScratch.vo", "C17/ScratchGenDefs.vo", "C17/Scratch_gen.vo", "C17/ProofsScratch.vo",
+           "C17/ModelErrFlow.vo", "C17/ProofsErrFlow.vo", "C17/ErrFlow_gen.vo", "C17/ProofsErrFlowGen.vo", "C17/CorrErrFlow.vo", "C17/Props.vo"]
 PROPS = ["C17/Props.v"]
 PARTIAL = ("Scheduling model, not a thread model: the theorems are about coq/C17/Model.v and ModelCfg.v (per-thread accumulators, lazy init "
            "flags, the merge loops per configuration of the optional accumulators, AddRangeJob's chunk arithmetic, the error slot). Actual "
@@ -60,12 +61,13 @@ SITE_OF = {"em-opt": "statistics/generic/mixture_em.go EmStep (option matrix)", 
            "normal": "statistics/scalarEstimator/normal.go Estimate/updateEstimate", "xpool": "scalar/vector estimators Estimate",
            "chunks": "threadpool AddRangeJob", "bw-err": "BaumWelchStep error path", "em-err": "EmStep error path",
            "x": "scalar/vector estimators Estimate", "full": "vectorEstimator.HmmEstimator / scalarEstimator.MixtureEstimator",
-           "comp": "XxxStdDataSet.EvaluateLogPdf on composite emissions (per-thread clones of stateful distributions)"}
+           "comp": "XxxStdDataSet.EvaluateLogPdf on composite emissions (per-thread clones of stateful distributions)",
+           "errflow": "error path of the estimators through the pool (results of AddJob / AddRangeJob / Wait and of the calls above and below them)"}
 
 
 # ---------------------------------------------------------------- access lists derived from the Go source
 
-def private_tree(ctx, gen_text, scratch_text=None):
+def private_tree(ctx, gen_text, scratch_text=None, errflow_text=None):
     """REPO is redirected and its job closures differ from the committed Sites_gen.v: compile Base + C17 with the
     regenerated file in a private tree under ctx.dir (the shared coq/ tree is left alone)."""
     root = os.path.join(ctx.dir, "coq")
@@ -76,6 +78,8 @@ def private_tree(ctx, gen_text, scratch_text=None):
     open(os.path.join(root, "C17", "Sites_gen.v"), "w").write(gen_text)
     if scratch_text is not None:
         open(os.path.join(root, "C17", "Scratch_gen.v"), "w").write(scratch_text)
+    if errflow_text is not None:
+        open(os.path.join(root, "C17", "ErrFlow_gen.v"), "w").write(errflow_text)
     return root
 
 
@@ -88,8 +92,9 @@ def translate(ctx):
     gen = os.path.join(ctx.dir, "Sites_gen.v")
     rep = os.path.join(ctx.dir, "sites_gen_report.json")
     sgen = os.path.join(ctx.dir, "Scratch_gen.v")
-    rc, out = vlib.sh([tool, "-repo", vlib.REPO, "-out", gen, "-scratch", sgen, "-report", rep], timeout=120, env=vlib.go_env())
-    if rc != 0 or not os.path.exists(gen) or not os.path.exists(rep) or not os.path.exists(sgen):
+    egen = os.path.join(ctx.dir, "ErrFlow_gen.v")
+    rc, out = vlib.sh([tool, "-repo", vlib.REPO, "-out", gen, "-scratch", sgen, "-errflow", egen, "-report", rep], timeout=120, env=vlib.go_env())
+    if rc != 0 or not os.path.exists(gen) or not os.path.exists(rep) or not os.path.exists(sgen) or not os.path.exists(egen):
         ctx.oblige(1, 0)
         return [{"target": "go2coq_c17 run", "lemma": None, "errors": [out[-1500:]]}]
     report = json.load(open(rep))
@@ -97,6 +102,17 @@ def translate(ctx):
     ctx.oblige(1, 1 if report.get("ok") else 0)
     new = open(gen).read()
     snew = open(sgen).read()
+    enew = open(egen).read()
+    ecommitted_path = os.path.join(vlib.ROOT, "coq", "C17", "ErrFlow_gen.v")
+    ecommitted = open(ecommitted_path).read() if os.path.exists(ecommitted_path) else ""
+    scopes = [s_ for s_ in (report.get("errscopes") or []) if s_.get("relevant")]
+    ops = [(s_, o) for s_ in scopes for o in s_["ops"]]
+    ctx.cov["error_flow_inventory"] = {
+        "scopes": len(scopes), "calls": len(ops), "changed": enew != ecommitted,
+        "pool_operations": sum(1 for _, o in ops if o["kind"] != "call"),
+        "by_disposition": {d: sum(1 for _, o in ops if o["disp"] == d) for d in ("returned", "stored", "discarded")},
+        "not_returned": ["%s %s %s line %d%s" % (s_["name"], o["name"], o["disp"], o["line"], " (callee cannot fail)" if o.get("nil") else "")
+                         for s_, o in ops if o["disp"] != "returned" and (o["chain"] or s_["ret_err"])]}
     committed_path = os.path.join(vlib.ROOT, "coq", "C17", "Sites_gen.v")
     scommitted_path = os.path.join(vlib.ROOT, "coq", "C17", "Scratch_gen.v")
     committed = open(committed_path).read() if os.path.exists(committed_path) else ""
@@ -106,16 +122,18 @@ def translate(ctx):
     ctx.cov["access_lists"]["clone_fields"] = len(report.get("clone_fields") or [])
     ctx.cov["access_lists"]["clone_fields_not_fresh"] = [c for c in (report.get("clone_fields") or []) if not c.get("Fresh")]
     ctx.cov["access_lists"]["scratch_changed"] = snew != scommitted
-    if new != committed or snew != scommitted:
+    if new != committed or snew != scommitted or enew != ecommitted:
         if os.path.abspath(vlib.REPO) == "/repo":
+            if enew != ecommitted:
+                open(ecommitted_path, "w").write(enew)
             if new != committed:
                 open(committed_path, "w").write(new)
             if snew != scommitted:
                 open(scommitted_path, "w").write(snew)
             ctx.log("Sites_gen.v / Scratch_gen.v regenerated from %s differ from the previous ones: the write-set theorems are re-checked against them" % vlib.REPO)
         else:
-            vlib.COQ = private_tree(ctx, new, snew)
-            ctx.log("Sites_gen.v / Scratch_gen.v regenerated from %s differ: proofs re-checked in private tree %s" % (vlib.REPO, vlib.COQ))
+            vlib.COQ = private_tree(ctx, new, snew, enew)
+            ctx.log("Sites_gen.v / Scratch_gen.v / ErrFlow_gen.v regenerated from %s differ: proofs re-checked in private tree %s" % (vlib.REPO, vlib.COQ))
     return [] if report.get("ok") else [{"target": "go2coq_c17 (no job closure found or parse errors)", "lemma": None,
                                         "errors": [json.dumps(report.get("parse_errors"))[:1500]]}]
 
@@ -127,6 +145,17 @@ def write_set_offenders(ctx):
                           "Eval vm_compute in (flat_map gsite_offenders gen_sites).\nEval vm_compute in (coverage_ok gen_sites).\n")
     rc, out = vlib.coqc_file(path, timeout=300)
     return " ".join(out.split())[-1500:]
+
+
+def errflow_offenders(ctx):
+    """The error-carrying calls whose error is neither returned nor known to be lost (printed by Coq)."""
+    path = os.path.join(ctx.dir, "Offenders_C17_errflow.v")
+    open(path, "w").write("From Coq Require Import List String Bool.\nFrom ADV Require Import C17.ModelErrFlow C17.ErrFlow_gen.\n"
+                          "Eval vm_compute in (flat_map escope_offenders gen_errscopes).\n"
+                          "Eval vm_compute in (errflow_coverage gen_errscopes).\n"
+                          "Eval vm_compute in (filter (fun k => negb (known_present gen_errscopes k)) known_losses).\n")
+    rc, out = vlib.coqc_file(path, timeout=300)
+    return " ".join(out.split())[-2500:]
 
 
 def scratch_offenders(ctx):
@@ -201,6 +230,73 @@ def fresh_stage(ctx, binary):
     return fails
 
 
+# Round 5: losses of an error on the unchanged tree, each demonstrated by a run of harness --extra errflow
+F_NUMERIC_ERR = {
+    "id": "F-NUMERIC-ERR-DISCARDED", "property": "C17",
+    "site": "statistics/scalarEstimator/numeric.go:117,143 (NumericEstimator.Estimate, objective closure) and :190",
+    "what": "the objective closure calls p.AddRangeJob(...) and p.Wait(g) as expression statements: an error returned by the density's LogPdf in a job "
+            "is dropped on the zero-value pool (AddRangeJob's result) and on every real pool (Wait's result); the objective silently omits the failing "
+            "observations and Estimate returns nil with parameters fitted to the rest (pool-size independent: silent for every k)",
+}
+F_SHAPEHMM_ADD = {
+    "id": "F-SHAPEHMM-ADDJOB-DISCARDED", "property": "C17",
+    "site": "statistics/matrixEstimator/shapeHmm_data.go:115 (ShapeHmmDataSet.EvaluateLogPdf)",
+    "what": "pool.AddRangeJob(...) is an expression statement and only Wait's result is tested: on the zero-value pool (every test of the repository) "
+            "an emission LogPdf error (or `probability is zero for all models`) is dropped and the estimation continues on a stale probability table, "
+            "on every real pool the same input makes EstimateOnData return the error: the error status depends on the pool size",
+}
+F_BATCH_ERR = {
+    "id": "F-BATCH-ERR-DISCARDED", "property": "C17",
+    "site": "statistics/scalarEstimator/logTransform.go:87,93,100,110; translation.go:86,92,99,109; statistics/vectorEstimator/normal.go:200,207 (job closures of Estimate)",
+    "what": "the job closures call obj.NewObservation(...) as an expression statement and return nil (Initialize / GetEstimate of the wrapped batch estimator "
+            "likewise): a failing wrapped batch estimator (vector NormalEstimator: an observation of the wrong dimension) is skipped silently and Estimate "
+            "returns nil, for every pool size alike",
+}
+KNOWN_ERRFLOW = {
+    ("numeric", "logpdf"): (F_NUMERIC_ERR, lambda e: not any(e.values())),
+    ("logt", "batch"): (F_BATCH_ERR, lambda e: not any(e.values())),
+    ("shapehmm", "logpdf"): (F_SHAPEHMM_ADD, lambda e: (not e["1"]) and all(v for k, v in e.items() if k != "1")),
+}
+
+
+def errflow_stage(ctx, binary):
+    """A failing component in every estimator kind on pools 1, 2, 4, 8: the error must come back for every pool size.
+    Returns (failures, seeds for the hunt)."""
+    rc, out = vlib.sh([binary, "--extra", "errflow", "--seed", str(ctx.seed), "--out", ctx.dir], timeout=300, env=vlib.go_env())
+    p = os.path.join(ctx.dir, "errflow.json")
+    if rc != 0 or not os.path.exists(p):
+        ctx.oblige(1, 0)
+        return [{"failure": "the error-flow stage did not run", "log": out[-1500:], "config": None}], []
+    rows = json.load(open(p))
+    fails, seeds, table = [], [], {}
+    for r in rows:
+        key = (r["kind"], r["mode"])
+        table["%s/%s" % key] = {"error_returned_on_pool": r["err"], "failure_reached": all(r["fired"].values())}
+        cfg = {"site": "errflow", "errflow": r["config"]}
+        if r.get("panic"):
+            fails.append({"failure": "panic: " + r["panic"], "config": cfg, "pool": {"k": 4, "buf": 2}})
+            continue
+        if key in KNOWN_ERRFLOW:
+            kf, witness = KNOWN_ERRFLOW[key]
+            if all(r["fired"].values()) and witness(r["err"]):
+                ctx.known_finding(kf["id"], kf["what"] + " - witness: failing component reached on pools 1,2,4,8, error returned: %s" % json.dumps(r["err"], sort_keys=True))
+            elif all(r["err"].values()):
+                ctx.notes.append("%s: the loss is no longer present (the error comes back on every pool)" % kf["id"])
+            else:
+                fails.append({"failure": "error flags %s of %s/%s differ from the witness of %s" % (json.dumps(r["err"], sort_keys=True), key[0], key[1], kf["id"]),
+                              "config": cfg, "pool": {"k": 2, "buf": 2}})
+            continue
+        seeds.append({"site": "errflow", "pool": {"k": 4, "buf": 2}, "errflow": r["config"]})
+        lost = sorted(int(k) for k in r["err"] if r["fired"][k] and not r["err"][k])
+        if lost:
+            fails.append({"failure": "a failing component (%s, %s) was reached and the estimation returned no error on pools of %s thread(s) (error returned: %s)" % (
+                r["kind"], r["mode"], lost, json.dumps(r["err"], sort_keys=True)), "config": cfg, "pool": {"k": max(lost), "buf": 2}})
+    ctx.cov["error_flow_runs"] = table
+    ctx.oblige(1, 0 if fails else 1)
+    ctx.log("error-flow stage: %d estimator kinds with a failing component on pools 1,2,4,8; %d unexpected losses" % (len(rows), len(fails)))
+    return fails, seeds
+
+
 def shards_of(ctx, stem):
     return sorted(glob.glob(os.path.join(ctx.dir, stem + "_*.v")), key=lambda p: int(p.rsplit("_", 1)[1][:-2]))
 
@@ -231,7 +327,7 @@ def corr(ctx, binary, n, corpus):
         return [], []
     meta = json.load(open(os.path.join(ctx.dir, "cases.meta.json")))
     vlib.merge_meta(ctx, meta)
-    cases, tols, rc_, rt_, ext = eval_all(ctx, "cases", ("ocases", "sagacases"))
+    cases, tols, rc_, rt_, ext = eval_all(ctx, "cases", ("ocases", "sagacases", "ecases"))
     ctx.oblige(len(rc_) + len(rt_), sum(1 for r in rc_ + rt_ if r["ok"]))
     raw = vlib.load_jsonl(os.path.join(ctx.dir, "cases.jsonl"))
     rawt = vlib.load_jsonl(os.path.join(ctx.dir, "tol.jsonl")) if os.path.exists(os.path.join(ctx.dir, "tol.jsonl")) else []
@@ -257,7 +353,7 @@ def corr(ctx, binary, n, corpus):
                         "out": {"what": t["what"], "go": t["go"]}})
     # option-matrix and SAGA shards
     nextra = 0
-    for stem in ("ocases", "sagacases"):
+    for stem in ("ocases", "sagacases", "ecases"):
         mp = os.path.join(ctx.dir, stem + ".meta.json")
         if not os.path.exists(mp):
             ctx.oblige(1, 0)
@@ -351,7 +447,7 @@ def race_stage(ctx, n):
 
 def hunt(ctx, binary, bad, n):
     rp = os.path.join(ctx.dir, "hunt_in.json")
-    json.dump({"cases": [b for b in bad if isinstance(b, dict)][:20]}, open(rp, "w"))
+    json.dump({"cases": [b for b in bad if isinstance(b, dict)][:24]}, open(rp, "w"))
     rc, out = vlib.sh([binary, "--extra", "hunt", "--replay", rp, "--n", str(n), "--seed", str(ctx.seed), "--out", ctx.dir],
                       timeout=900, env=vlib.go_env())
     hp = os.path.join(ctx.dir, "hunt.json")
@@ -476,6 +572,13 @@ def run(ctx):
             if f["target"] in ("C17/ProofsScratch.vo", "C17/Scratch_gen.vo"):
                 f["errors"] = (f.get("errors") or []) + [{"rejected_scratch": off}]
         ctx.log("scratch-cell theorem fails on the generated lists: " + off[:800])
+    eproof_broken = any(f["target"] in ("C17/ProofsErrFlowGen.vo", "C17/ErrFlow_gen.vo") for f in failures)
+    if eproof_broken:
+        off = errflow_offenders(ctx)
+        for f in failures:
+            if f["target"] in ("C17/ProofsErrFlowGen.vo", "C17/ErrFlow_gen.vo"):
+                f["errors"] = (f.get("errors") or []) + [{"error_results_not_propagated": off}]
+        ctx.log("error-flow obligation fails on the generated inventory (an error result is not propagated): " + off[:800])
     if any(f["target"] == "C17/ProofsSitesGen.vo" for f in failures):
         off = write_set_offenders(ctx)
         for f in failures:
@@ -493,6 +596,7 @@ def run(ctx):
     quick = ctx.tier == "quick"
     bad, broken = corr(ctx, binary, 60 if quick else 500, os.path.join(vlib.ROOT, "corpus/C17/corpus.jsonl"))
     ffails = fresh_stage(ctx, binary)
+    efails, eseeds = errflow_stage(ctx, binary)
     hits = vmix_recursion_present()
     if hits:
         ctx.known_finding(F_VMIX_RECURSION["id"], F_VMIX_RECURSION["what"] + " - present in " + ", ".join(hits))
@@ -525,14 +629,17 @@ def run(ctx):
     rfails = kept
     # the hunt: property-level oracle on the implementation over many schedules
     h = None
-    if bad or rfails or not ok or ffails:
-        seeds = list(bad)
+    if bad or rfails or not ok or ffails or efails:
+        seeds = [{"site": "errflow", "pool": f.get("pool"), "errflow": f["config"]["errflow"]} for f in efails if f.get("config")]
+        if eproof_broken or efails:
+            seeds += eseeds
+        seeds += list(bad)
         for f in rfails:
             if f.get("config"):
                 c = f["config"]
                 seeds.append({"site": c.get("site"), "pool": f.get("pool", {"k": 4}), "em": c.get("em"), "bw": c.get("bw"),
                               "normal": c.get("normal"), "x": c.get("x"), "full": c.get("full"), "saga": c.get("saga"),
-                              "numeric": c.get("numeric"), "comp": c.get("comp")})
+                              "numeric": c.get("numeric"), "comp": c.get("comp"), "errflow": c.get("errflow")})
         h = hunt(ctx, binary, seeds, 300 if quick else 3000)
     else:
         h = hunt(ctx, binary, [], 150 if quick else 1500)
@@ -548,6 +655,9 @@ def run(ctx):
                        "broken": [f["target"] for f in failures] + (["correspondence C17.Corr.check"] if bad else [])},
                       True, "parallel run differs from the sequential run: " + h["failure"][:300])
         return
+    for f in efails:
+        ctx.violation({"config": f.get("config"), "pool": f.get("pool"), "failure": f["failure"], "site": SITE_OF["errflow"]},
+                      bool(f.get("config")), "error propagation through the pool: " + f["failure"][:400])
     for f in ffails:
         ctx.violation({"obligation": "deep-copy freshness of per-thread clones (harness --extra fresh)", "fresh": True,
                        "shared": f.get("shared")}, bool(f.get("input")), f["what"][:900])
